@@ -308,6 +308,24 @@ fn gen_mixed_op(rng: &mut SplitMix, t: &Target, probe: &Op, c18: bool) -> Op {
                 let prec = *rng.pick(&[0u8, 24, 24, 53, 40]);
                 Op::Nested { point, ed, st, at, ipoint, ied, ist, prec }
             }
+            97 => match gen_sample_x_on(rng, t) {
+                Op::SampleX { point, ed, st } => {
+                    // which values does this call convert to f64 back to back?
+                    ctx::begin_op(vec![], true, 400_000);
+                    let _ = t.s.sample_x(&point, &ed, &crate::sampler::Settings::plain());
+                    let stt = ctx::end_op();
+                    let mut pairs: Vec<(u64, u64)> = Vec::new();
+                    if let Some(tr) = &stt.trace {
+                        for w in tr.windows(2) {
+                            if w[0].kind == ctx::kind::TO_F64 && w[1].kind == ctx::kind::TO_F64 && pairs.len() < 6 {
+                                pairs.push((w[0].a, w[1].a));
+                            }
+                        }
+                    }
+                    Op::Interfered { point, ed, st, pairs }
+                }
+                o => o,
+            },
             _ => Op::ImageCheck,
         }
     }
